@@ -6,6 +6,7 @@ import (
 	"time"
 
 	"github.com/TarsCloud/TarsGo/tars/registry"
+	"github.com/TarsCloud/TarsGo/tars/transport"
 	"github.com/TarsCloud/TarsGo/tars/util/rogger"
 )
 
@@ -99,4 +100,16 @@ func VerifState(s *ServantProxy) VerifProxyState {
 		})
 	}
 	return st
+}
+
+// VerifClients returns the transport clients of all adapters of a proxy.
+func VerifClients(s *ServantProxy) []*transport.TarsClient {
+	var out []*transport.TarsClient
+	if em, ok := s.manager.(*endpointManager); ok {
+		em.epList.Range(func(k, v interface{}) bool {
+			out = append(out, v.(*AdapterProxy).tarsClient)
+			return true
+		})
+	}
+	return out
 }
